@@ -416,6 +416,10 @@ DeleteRemoves ==
   [][op'.name = "delete" => Peek([lru |-> lru', bk |-> bk'], op'.w, op'.keys[1]) = None]_vars
 
 ----------------------------------------------------------------------------
+(* SYMMETRY of the deciding configurations (Keys and Values are sets of model values there): nothing in
+   the specification distinguishes one key or one value from another. *)
+Sym == Permutations(Keys) \cup Permutations(Values)
+
 (* Behaviour generation (DESIGN.md 1.5): hist is outside the VIEW. *)
 
 (* what a client finds when, after the behaviour, it reads every key of every view, one single-key
